@@ -15,7 +15,7 @@ RULE = (
     'namespace prefix, #id, .class, [att] with every operator and ident/string values, pseudo-classes, functional '
     'pseudo-classes with an+b / ident / string arguments, :not(simple), pseudo-elements in one- and two-colon form; the '
     'four combinators) with the expected specificity and structure computed from the model; each is rendered in the '
-    'canonical and 3 random spellings (white space, comments, letter case of pseudo names and :not, hex escapes, quote '
+    'canonical and 3 random spellings (white space, comments - also between the two tokens of a class, pseudo or qualified name -, letter case of pseudo names and :not, hex escapes, quote '
     'style), parsed stand-alone and attached to a sheet with @namespace rules, and re-read from selectorText; the combinator items of '
     'Selector.seq must be exactly the combinators of the model (white space around comments is no second combinator). '
     'list: sequences of appendSelector / list[i]= / selectorText= with valid, duplicate and invalid members against a '
